@@ -129,6 +129,22 @@ def framedB (e : Env) (σ : St) (t r : Nat) : Bool :=
       | some v => decide (e.time last ≤ v) && decide (v ≤ e.time (last + 1))
       | none => false)
 
+/-- the project calendar as maximal runs `[lo, hi)` of slots of the table in which `Project.isWorkingTime` holds -/
+def projRuns (e : Env) : List Json :=
+  let n := e.size.toNat
+  let step := fun (acc : List (Int × Int) × Option Int) (k : Nat) =>
+    let i : Int := k
+    let w := e.projWork i
+    match acc.2, w with
+    | none, true => (acc.1, some i)
+    | some lo, false => ((lo, i) :: acc.1, none)
+    | x, _ => (acc.1, x)
+  let r := (List.range n).foldl step ([], none)
+  let runs := match r.2 with
+    | some lo => (lo, (n : Int)) :: r.1
+    | none => r.1
+  runs.reverse.map (fun p => Json.arr #[Json.num (JsonNumber.fromInt p.1), Json.num (JsonNumber.fromInt p.2)])
+
 /-- decidable form of `FwdEff` -/
 def fwdEffB (e : Env) (t : Nat) : Bool :=
   let d := e.taskD t
@@ -450,7 +466,8 @@ def runSched (j : Json) : Json :=
   Json.mkObj [("end", Json.num (JsonNumber.fromInt (Elab.abs p e.stop))), ("wf", Json.bool (wfCheck e && treeCheck e)), ("size", Json.num (JsonNumber.fromInt e.size)), ("thm", thm),
               ("tasks", Json.arr tasks.toArray), ("ledger", Json.arr led.toArray), ("counters", Json.arr cnt.toArray),
               ("warnings", Json.arr (σ.warnings.map Json.str).toArray),
-              ("order", Json.arr (order.reverse.map (fun t => Json.num (JsonNumber.fromNat t))).toArray)]
+              ("order", Json.arr (order.reverse.map (fun t => Json.num (JsonNumber.fromNat t))).toArray),
+              ("projwork", Json.arr (projRuns e).toArray)]
 
 /-- C09: the base project and the project with one more task; are the hypotheses of
     `C09.lowest_priority_intruder_harmless_checked` met, and does its conclusion evaluate to true on the two model runs? -/
